@@ -405,7 +405,16 @@ def related_patterns(rng, cat):
         svc + ":?" + name[1:3] + "*",
         svc + ":*" + name[1:3] + "*",
         a,
+        # "at least one more character" against "any continuation": they differ exactly on the action `a` itself
+        a + "?*",
+        a + "*",
+        svc + ":" + name[:j + 1] + "?*",
     ]
+    if rng.random() < 0.3:
+        ps = [a + "?*", a + "*"] if rng.random() < 0.7 else [svc + ":" + name[:j + 1] + "?*", svc + ":" + name[:j + 1] + "*"]
+        if rng.random() < 0.3:
+            ps.reverse()
+        return ps
     ps = rng.sample(variants, rng.randint(2, 4))
     if rng.random() < 0.5:
         ps.reverse()
